@@ -437,6 +437,23 @@ pub fn run(env: &Env) -> PropRun {
     parts.push(run_part(env, "dispatch-table", l2.len(), true, "{ESC [, U+009B} x {none,?,<,=,>} x 24 parameter shapes x {none, each intermediate 0x20-0x2F} x every final 0x40-0x7E; ESC x {none, each intermediate} x every final 0x30-0x7E; every C0/C1 from ground and inside CSI; SGR codes 0-110, all 256 indices in ; and : form, RGB lattice in 3 forms, both grounds", &|i| l2.get(i).map(|s| Case::new(1, 1, None).feed(s.clone()).with_nums(vec![1])), &js));
     let ef = esc_fe_cases();
     parts.push(run_part(env, "escfe-equals-c1", ef.len(), true, "every ESC 0x40-0x5F vs its C1 counterpart x 6 tails x 5 preceding states", &|i| ef.get(i).cloned(), &je));
+    // strings of every kind at lengths around the sizes a bounded buffer or counter would
+    // have: the state must stay the string state until the terminator, however long
+    {
+        let mut ls: Vec<String> = vec![];
+        for (i7, i8) in [("\x1b]", "\u{9d}"), ("\x1bP", "\u{90}"), ("\x1bX", "\u{98}"), ("\x1b^", "\u{9e}"), ("\x1b_", "\u{9f}")] {
+            for intro in [i7, i8] {
+                for n in [255usize, 256, 257, 1024, 4095, 4096, 4097, 8192, 32768, 65535, 65536, 65537, 100_000] {
+                    for (k, unit) in ["a", "0;", "é世", "~\n"].iter().enumerate() {
+                        let body: String = unit.chars().cycle().take(n).collect();
+                        let term = ["\x1b\\", "\u{9c}", "\x18", "\x1b[5;6H"][k];
+                        ls.push(format!("{intro}{body}{term}Zq\x1b[1;2H"));
+                    }
+                }
+            }
+        }
+        parts.push(run_part(env, "long-strings", ls.len(), true, "5 string kinds x 7/8-bit introducer x 13 payload lengths 255 ... 100 000 x 4 payload classes / terminators, compared character by character with the reference parser", &|i| ls.get(i).map(|s| Case::new(1, 1, None).feed(s.clone()).with_nums(vec![1])), &js));
+    }
     let b = basis();
     let nb = b.len();
     parts.push(run_part(env, "memoryless-pairs", nb * nb, true, &format!("all ordered pairs of a {}-sequence basis (stale parameters, sub-parameters, intermediates, aborted and string sequences)", nb), &|i| Some(Case::new(1, 1, None).feed(b[i / nb].clone()).feed(b[i % nb].clone())), &jm));
